@@ -21,6 +21,7 @@ func c13YAML(replicas int) string {
 	b.WriteString("  x:\n    command: \"fake x\"\n")
 	b.WriteString("  w:\n    command: \"fake w {{.PC_REPLICA_NUM}} {{.GS}} {{.GN}} {{.LN}}\"\n")
 	b.WriteString("    description: \"replica {{.PC_REPLICA_NUM}} of w\"\n")
+	b.WriteString("    working_dir: \"/tmp\"\n") // exec probes without a directory of their own inherit it
 	b.WriteString("    log_location: \"@DIR@/w.{{.PC_REPLICA_NUM}}.log\"\n")
 	b.WriteString("    vars:\n      LN: 87654321\n")
 	b.WriteString("    environment:\n      - 'K=v'\n")
